@@ -30,6 +30,16 @@ pub(crate) struct Instant {
 
 impl Instant {
     pub fn now() -> Self {
+        // Verification hook: follow tokio's (pausable) clock so that a paused runtime virtualises
+        // node ageing, token rotation and peer expiry together with the timers.
+        #[cfg(feature = "verif")]
+        if let Some(std_instant) = tokio::time::Instant::now()
+            .into_std()
+            .checked_add(OFFSET)
+        {
+            return Self { std_instant };
+        }
+
         Self {
             std_instant: StdInstant::now().checked_add(OFFSET).unwrap(),
         }
